@@ -25,7 +25,7 @@ import (
 	ocispec "github.com/opencontainers/image-spec/specs-go/v1"
 	"pgregory.net/rapid"
 
-	"verif/harness/internal/vt"
+	"verif/harness/vt"
 )
 
 func TestMain(m *testing.M) { vt.Main(m) }
